@@ -23,7 +23,7 @@ RULE = (
     "that switches with 10..70 % probability right before every opcode writing an attribute / item / global and rarely "
     "elsewhere - races need a switch between two writes). real: the real ThreadPool "
     "under sys.setswitchinterval(1e-6), 40 repetitions per case. In three cases of seven the cube under test has a past: an earlier pooled evaluation aborted by the "
-    "caller's check_interrupt callback at consultation 0/1/2/5 and caught. Oracle: every output array is bit-for-bit (bytes, "
+    "caller's check_interrupt callback at consultation 0/1/2/5 and caught. Oracle: the pooled run emits no warning the serial run does not emit (NumPy's error state is per thread), and every output array is bit-for-bit (bytes, "
     "dtype, shape) the serial result of a fresh twin cube and fresh function objects. Non-trivial (det) = at least "
     "2 workers alive and at least one pre-emption actually taken; (real) = pool size >= 2 with >= 3 sub-cubes. "
     "det_large / real_large: the same with 1 100..4 200 rows (stored as a recipe) so that size thresholds inside the "
@@ -268,8 +268,12 @@ def check(case, rec):
     kind = case["kind"]
     what = "%s.calculate(%s)" % (kind, [f["agg"] for f in funcs])
     sched = case["schedule"]
-    with warnings.catch_warnings():
-        warnings.simplefilter("ignore")
+    with warnings.catch_warnings(record=True) as wlog:
+        warnings.simplefilter("always")
+
+        def emitted(start):
+            return {(w.category.__name__, str(w.message)[:70]) for w in wlog[start:]}
+
         edited_cube = None
         if case.get("edited") and kind == "ccube":
             with libcall(what + " pooled, then an in-place edit of a dimension"):
@@ -286,7 +290,9 @@ def check(case, rec):
                 cube = edited_cube  # the reference is the serial evaluation of the SAME (edited) cube object
                 rec.note("cube evaluated pooled before an in-place edit of a dimension")
             cube.parallel = False
+            mark = len(wlog)
             serial = [bits(r) for r in cube.calculate(L)]
+            serial_warnings = emitted(mark)
         if getattr(cube, "scaffold_size", 3) <= 2:
             raise Violation("harness: cube has <= 2 sub-cubes", sig="harness")
         if sched["kind"] == "real":
@@ -304,7 +310,14 @@ def check(case, rec):
                                 rec.note("cube with an interrupted pooled evaluation in its past")
                         cube.parallel = True
                         cube.poolsize = case["poolsize"]
+                        mark = len(wlog)
                         got = [bits(r) for r in cube.calculate(L)]
+                    extra = emitted(mark) - serial_warnings
+                    if extra:
+                        raise Violation("%s with a real ThreadPool(%d) emits warnings the serial evaluation does not: %s "
+                                        "(with warnings turned into errors it raises where the serial run returns)"
+                                        % (what, case["poolsize"], sorted(extra)[:2]),
+                                        sig="%s pooled evaluation warns where serial does not" % kind)
                     if got != serial:
                         raise Violation("%s with a real ThreadPool(%d) differs from the serial result (repetition %d)"
                                         % (what, case["poolsize"], rep), sig="%s pooled != serial (real threads)" % kind)
@@ -335,11 +348,17 @@ def check(case, rec):
             with libcall(what + " pooled (DetPool)"):
                 cube.parallel = True
                 cube.poolsize = case["poolsize"]
+                mark = len(wlog)
                 got = [bits(r) for r in cube.calculate(L)]
+                det_extra = emitted(mark) - serial_warnings
         finally:
             build.POOL_FACTORY[0] = None
             for p in pools:
                 p.join()
+    if det_extra:
+        raise Violation("%s under DetPool(%d) emits warnings the serial evaluation does not: %s (with warnings turned into "
+                        "errors it raises where the serial run returns)" % (what, case["poolsize"], sorted(det_extra)[:2]),
+                        sig="%s pooled evaluation warns where serial does not" % kind)
     if got != serial:
         raise Violation("%s under DetPool(%d) with schedule %s differs from the serial result" % (
             what, case["poolsize"], {k: v for k, v in sched.items() if k != "prio"}),
